@@ -298,6 +298,22 @@ def main():
             broken.append({"kind": "axioms", "message": "axioms outside the allow-list: %s" % not_allowed})
         if okp and len(assumptions) < len(thms_all):
             broken.append({"kind": "audit", "message": "Print Assumptions missing for some theorem (%d of %d)" % (len(assumptions), len(thms_all))})
+        if okp and tier == "thorough":
+            # independent re-check of the compiled theorems and everything they depend on
+            modname = "Passage." + spec["props_file"][:-2].replace("/", ".")
+            rc_chk, out_chk = sh(["timeout", "3000", "coqchk", "-silent", "-o", "-Q", COQ, "Passage", modname], cwd=COQ, timeout=3100)
+            m_ax = re.search(r"\* Axioms:(.*?)\n\s*\n\* Constants/Inductives relying on type-in-type:(.*?)\n\s*\n\* Constants/Inductives relying on unsafe \(co\)fixpoints:(.*?)\n\s*\n\* Inductives whose positivity is assumed:(.*?)\n", out_chk, flags=re.S)
+            coqchk_summary = {"exit": rc_chk, "axioms": m_ax.group(1).strip() if m_ax else "?", "type_in_type": m_ax.group(2).strip() if m_ax else "?",
+                              "unsafe_fix": m_ax.group(3).strip() if m_ax else "?", "assumed_positivity": m_ax.group(4).strip() if m_ax else "?"}
+            if rc_chk != 0 or not m_ax or any(coqchk_summary[k] != "<none>" for k in ("type_in_type", "unsafe_fix", "assumed_positivity")):
+                broken.append({"kind": "coqchk", "message": str(coqchk_summary) + out_chk[-300:]})
+            elif coqchk_summary["axioms"] != "<none>":
+                names = re.findall(r"([A-Za-z_][\w.']*)\s*$|([A-Za-z_][\w.']+)", coqchk_summary["axioms"])
+                flat = {a or b for a, b in names}
+                extra = [n for n in flat if not any(n.endswith(al.split(".")[-1]) for al in spec.get("allowed_axioms", []))]
+                if extra:
+                    broken.append({"kind": "coqchk", "message": "coqchk reports axioms outside the allow-list: %s" % sorted(extra)})
+            spec["_coqchk"] = coqchk_summary
         bad = audit_sources()
         if bad:
             broken.append({"kind": "audit", "message": "; ".join(bad[:10])})
@@ -425,7 +441,7 @@ def evidence(pid, spec, tier, seed, wall, thms_all, thms_ok, broken, cases, code
             "distribution_notes": notes[:50],
             "model_impl_disagreements": len(res["corr"]), "monitor_failures": len(res["viol"]),
             "known_finding_hits": len(res["known"]), "known_finding_lines": kf_lines,
-            "broken": broken, "failing_input_search": search,
+            "broken": broken, "failing_input_search": search, "coqchk": spec.get("_coqchk"),
             "explanation": spec.get("explanation", ""),
         },
         "assumptions": spec.get("assumptions", []),
